@@ -19,6 +19,10 @@ Fixpoint memb (x : N) (l : list N) : bool :=
 Fixpoint nodupb (l : list N) : bool :=
   match l with [] => true | x :: r => negb (memb x r) && nodupb r end.
 
+(** a named fn* sees itself under its own name: the Python function's name in the defining frame *)
+Definition self_sg (sg : senv) (self : option N) (n : N) : senv :=
+  match self with Some f => upd sg f (NFn n) | None => sg end.
+
 Definition cout := (list cstmt * pexpr * N * bool)%type.
 
 (** arguments left to right; an argument's inline expression is evaluated after the
@@ -57,9 +61,9 @@ Fixpoint cgen (sg : senv) (n : N) (e : cexpr) : cout :=
   | CCall f args =>
       let '(ds, es, n', k) := cgen_args (fun n a => cgen sg n a) args n in
       (ds, PCall f es, n', k)
-  | CFn ps body =>
+  | CFn self ps body =>
       let fname := NFn n in
-      let '(db, eb, n1, k) := cgen (bind_sg sg ps) (n + 1) body in
+      let '(db, eb, n1, k) := cgen (bind_sg (self_sg sg self n) ps) (n + 1) body in
       ([SDef fname (n + 1) (map NParam ps) db eb], PName fname, n1, k && nodupb ps)
   | CInvoke f args =>
       let '(df, ef, n1, k1) := cgen sg n f in
